@@ -1,6 +1,7 @@
 package main
 
 import (
+	"fmt"
 	"sort"
 	"strings"
 
@@ -19,6 +20,25 @@ func init() {
 }
 
 func c01(c *Ctx) {
+	{
+		// the database filter travels as one comma-joined query value; client and server must agree
+		cs, hs := "http.(*Client).Stream", "http.(*Server).handlePostStream"
+		isFilter := func(m IM, idx int) IM {
+			return func(in ssa.Instruction) bool { return m(in) && c.argR(in, idx) == "\"filter\"" }
+		}
+		set := isFilter(c.P.PlainCalls("net/url.(Values).Set"), 1)
+		c.ExpectAll("stream/filter/client-joins", c.CallArgs(cs, set, 2), pat("strings.Join(p5, \",\")"), 1, "the client sends the whole filter as one value joined by commas", "the server reads a single value: names sent any other way are dropped silently and those databases never replicate")
+		c.ExpectAll("stream/filter/client-single-value", []string{fmt.Sprint(len(Instrs(c.F(cs), isFilter(c.P.PlainCalls("net/url.(Values).Add"), 1))))}, "0", 1, "the client never adds further values under the key", "")
+		get := isFilter(c.P.PlainCalls("net/url.(Values).Get"), 1)
+		c.ExpectAll("stream/filter/server-reads-key", []string{fmt.Sprint(len(Instrs(c.F(hs), get)) > 0)}, "true", 1, "the server reads the key 'filter'", "")
+		c.ExpectAll("stream/filter/server-splits", c.CallArgs(hs, c.P.PlainCalls("strings.Split"), 0), pat("net/url.(Values).Get(@@, \"filter\")"), 1, "the server splits that value", "")
+		c.ExpectAll("stream/filter/server-separator", c.CallArgs(hs, c.P.PlainCalls("strings.Split"), 1), pat("\",\""), 1, "... at commas", "")
+	}
+	{
+		ss := "http.(*Server).streamLTXSnapshot"
+		c.Guarded("snapshot-timeout/only-when-positive", ss, c.P.PlainCalls("context.WithTimeoutCause", "context.WithTimeout", "context.WithDeadline"), gs(G(`\(0 < phi\(p0\.SnapshotTimeout\|p0\.store\.Retention\)\)`, true)), 1,
+			"a snapshot is given a deadline only when the configured timeout (or, by default, the retention period) is positive", "with retention disabled (0) the deadline has already passed: every snapshot is aborted and a replica that needs one never catches up")
+	}
 	p := c.P
 	call := func(n string) IM { return p.PlainCalls("litefs.(*DB)." + n) }
 	ap := "litefs.(*DB).ApplyLTXNoLock"
